@@ -1,5 +1,5 @@
 (* E4C.v -- model side of the TLS / configuration engine (harness/e4) *)
-From WT.Model Require Import Base Varint Ids Tls.
+From WT.Model Require Import Base Varint Ids Tls Config.
 From WT.Corr Require Import CorrBase.
 
 Definition bias : N := 1099511627776. (* 2^40 *)
@@ -75,6 +75,23 @@ Definition model (f : N) (a : list (list N)) : list (list N) :=
   | 751 =>
       let ok := match idle_accept (argn 0 0 a) (argn 0 1 a) with Some _ => 1 | None => 0 end in
       [[1; ok; ok; 1]]
+  | 754 =>
+      let ops := map (fun o => match o with
+                               | [1; 0] => SetIdle None
+                               | [1; _; s; n] => SetIdle (Some (s, n))
+                               | [2; 0] => SetKeep None
+                               | [2; _; ms] => SetKeep (Some ms)
+                               | [3; v] => if argn 0 0 a =? 0 then SetMigr (v =? 1) else SetKeep None
+                               | _ => SetKeep None
+                               end) (tl a) in
+      (* the client builder has no allow_migration: such an op is not generated for it *)
+      match cbuild tdefault ops with
+      | None => [[1; 0]]
+      | Some c => [[1; 1];
+                   match t_idle c with None => [0] | Some ms => [1; ms] end;
+                   match t_keep c with None => [0] | Some ms => [1; ms] end;
+                   [if t_migr c then 1 else 0]]
+      end
   | _ => [[PANIC]]
   end.
 
